@@ -23,6 +23,9 @@ import traceback
 
 VERIF = os.path.dirname(os.path.dirname(os.path.abspath(__file__)))
 REPO = os.environ.get("VERIF_REPO", "/repo")
+# evidence/ and replays/ live in the checkout; the seeded-change tools redirect them so that runs against a modified
+# copy of the repository never overwrite the evidence of the real tree
+OUT = os.environ.get("VERIF_OUT") or VERIF
 
 CHECK_MODULES = {
     "C01": "checks.c01_roundtrip",
@@ -605,7 +608,7 @@ def main(prop, tier, replay, nshards, scale):
             "repo_head": head,
             "repo_dirty": dirty,
         }
-        write_evidence(os.path.join(VERIF, "evidence", prop + ".json"), ev)
+        write_evidence(os.path.join(OUT, "evidence", prop + ".json"), ev)
         print("%s tier=%s seed=%d evaluations=%d distinct_nontrivial=%d known_hits=%d new=%d wall=%.1fs%s" % (
             prop, tier, seed, merged.evaluations, len(merged.nontrivial_hashes), sum(report["known_hits"].values()),
             report["new"], wall, (" budget_skipped=%d" % merged.budget_skipped) if merged.budget_skipped else ""))
@@ -673,7 +676,7 @@ def triage(check, prop, tier, seed, merged, known, env):
             env.replaying = False
         rp = {"property": prop, "seed": seed, "tier": tier, "case": case, "signature": f["signature"],
               "observed": f["observed"], "expected": f["expected"], "count": f["count"], "reproduced_in_parent": reproduced}
-        d = os.path.join(VERIF, "replays", prop)
+        d = os.path.join(OUT, "replays", prop)
         os.makedirs(d, exist_ok=True)
         path = os.path.join(d, short_hash([f["signature"], case]) + ".json")
         with open(path, "w") as fh:
